@@ -383,6 +383,9 @@ pub(crate) struct LogReader {
     processed (e.g. during database recoveries).
     */
     current_block_offset: usize,
+
+    /// The number of block records that were dropped because they failed validation.
+    num_corrupted_records_skipped: usize,
 }
 
 /// Public methods
@@ -408,6 +411,7 @@ impl LogReader {
             initial_offset: initial_block_offset,
             current_cursor_position: initial_block_offset,
             current_block_offset: 0,
+            num_corrupted_records_skipped: 0,
         };
 
         Ok(reader)
@@ -446,6 +450,7 @@ impl LogReader {
                 }
 
                 // A fragment was dropped so the record being assembled cannot be completed
+                self.num_corrupted_records_skipped += 1;
                 data_buffer.clear();
                 in_fragmented_record = false;
             } else {
@@ -585,6 +590,11 @@ impl LogReader {
     */
     pub(crate) fn has_read_entire_file(&self) -> LogIOResult<bool> {
         Ok(self.current_cursor_position as u64 == self.len()?)
+    }
+
+    /// Returns the number of block records that were skipped because they were corrupted.
+    pub(crate) fn num_corrupted_records_skipped(&self) -> usize {
+        self.num_corrupted_records_skipped
     }
 
     /// Log bytes dropped with the provided reason.
